@@ -41,6 +41,8 @@ pub enum Kind {
     CasGet { known: Option<Vec<u8>>, well_formed: bool },
     Import { frame: Option<Frame>, storable: bool },
     NoRoute { expect: u16 },
+    /// an upload cut off in the middle of its body: must not succeed, must not change the store
+    Truncated,
 }
 
 #[derive(Clone, Debug)]
@@ -168,6 +170,13 @@ pub fn items(env: &Env, full: bool) -> Vec<Item> {
     add("import-badjson", Req::new("POST", "/import").body(b"{\"topic\": 1"), Kind::Import { frame: None, storable: false });
     let nul = Frame::builder("a\0b", ZERO_CONTEXT).id(Scru128Id::from_u128(env.f0.to_u128() + 2)).build();
     add("import-nul", Req::new("POST", "/import").body(serde_json::to_string(&nul).unwrap().as_bytes()), Kind::Import { frame: Some(nul), storable: false });
+    // uploads cut mid-body (declared length not reached / chunked body without its terminator)
+    add("post-cut-length", Req::new("POST", "/cut").body(b"0123456789").truncated(4), Kind::Truncated);
+    add("post-cut-chunked", Req::new("POST", "/cut").body(b"0123456789").chunked().truncated(4), Kind::Truncated);
+    add("cas-cut-chunked", Req::new("POST", "/cas").body(b"0123456789").chunked().truncated(4), Kind::Truncated);
+    let cutimp = Frame::builder("cutimp", ZERO_CONTEXT).id(Scru128Id::from_u128(env.f0.to_u128() + 9)).build();
+    let cutbody = serde_json::to_string(&cutimp).unwrap();
+    add("import-cut-length", Req::new("POST", "/import").body(cutbody.as_bytes()).truncated(cutbody.len() - 3), Kind::Truncated);
     // no route
     add("put-root", Req::new("PUT", "/"), Kind::NoRoute { expect: 404 });
     add("patch", Req::new("PATCH", "/a"), Kind::NoRoute { expect: 404 });
@@ -236,6 +245,17 @@ pub fn step(server: &Server, item: &Item, conn: &mut Option<Conn>) -> (String, V
     let after = store.verif_dump();
     let after_frames: Vec<Frame> = store.read_sync(None, None, None).collect();
     let mut bad = |kind: &str, msg: String| fs.push(Finding { kind: kind.into(), msg: format!("{} [{} {}]: {}", item.name, item.req.method, item.req.target.chars().take(80).collect::<String>(), msg) });
+    if matches!(item.kind, Kind::Truncated) {
+        // the request itself is incomplete: any non-success answer (or none) is fine, but nothing
+        // may have been stored and no partial content may be referenced by a frame
+        if resp.status / 100 == 2 {
+            bad("http.status", format!("an upload cut mid-body was answered {}", resp.status));
+        }
+        if after != before {
+            bad("http.effect", "an upload cut mid-body changed the store".into());
+        }
+        return (format!("cut:{}", resp.status), fs);
+    }
     if resp.status == 0 {
         bad("http.no_response", format!("no HTTP response ({})", resp.error.clone().unwrap_or_default()));
         if after != before {
@@ -505,6 +525,7 @@ pub fn step(server: &Server, item: &Item, conn: &mut Option<Conn>) -> (String, V
                 }
             }
         },
+        Kind::Truncated => {}
         Kind::NoRoute { expect } => {
             if st != *expect && class(st) != 4 {
                 bad("http.status", format!("unrouted request got {}", st));
